@@ -282,6 +282,7 @@ type concStats struct {
 	Counts       map[string]int64 `json:"counts"`
 	Violations   []concViolation  `json:"violations,omitempty"`
 	Inconclusive []string         `json:"inconclusive,omitempty"`
+	Samples      []string         `json:"samples,omitempty"`
 	perClass     map[string]int
 	hashes       map[int]map[uint64]bool
 }
@@ -578,6 +579,15 @@ func judgeScenario(st *concStats, cs Case, rec *recorder, res []resolutionResult
 	}
 	parts := histModel.Partition(ops)
 	st.count("conc:history-partitions", int64(len(parts)))
+	st.mu.Lock()
+	if len(st.Samples) < 1 && len(ops) >= 12 && len(ops) <= 60 {
+		var lines []string
+		for _, op := range ops {
+			lines = append(lines, fmt.Sprintf("g%d [%d,%d] %s", op.ClientId, op.Call, op.Return, histModel.DescribeOperation(op.Input, op.Output)))
+		}
+		st.Samples = append(st.Samples, fmt.Sprintf("G=%d, %d recorded client calls, history of %d operations in %d partitions: %s", cc.G, len(all), len(ops), len(parts), strings.Join(lines, "; ")))
+	}
+	st.mu.Unlock()
 	switch porcupine.CheckOperationsTimeout(histModel, ops, 30*time.Second) {
 	case porcupine.Ok:
 	case porcupine.Unknown:
